@@ -1,10 +1,25 @@
 import Vegeta.Go.Proto
+import Vegeta.Model.AttackTrace
 /-! Driver operations of property C04 (ops are named `c04.<name>`). -/
 namespace Vegeta.Driver.C04
-open Vegeta.Go Vegeta.Go.Proto
+open Vegeta.Go Vegeta.Go.Proto Vegeta.Model.Attack
 
-def handle (_op : String) (args : List String) : Option String :=
-  match _op with
+def pConsult : P Consult := do
+  let e ← nat
+  let h ← nat
+  let t ← tok
+  if t == "stop" then pure { elapsed := e, hits := h, wait := none }
+  else match t.toInt? with
+    | some w => pure { elapsed := e, hits := h, wait := some w }
+    | none => failure
+
+def handle (op : String) (args : List String) : Option String :=
+  match op with
+  | "c04.log" => do
+    let ((du, cs), _) ← (do let du ← nat; let cs ← listOf pConsult; pure (du, cs)).run args
+    match replayLog du cs with
+    | none => pure "ok"
+    | some k => pure s!"reject {k}"
   | _ => none
 
 end Vegeta.Driver.C04
